@@ -147,8 +147,8 @@ class C16(Engine):
             else:
                 add_line(".macro RP(a)\n.db a\nRP(a+1)\n.endm\nRP(1)")
         elif kind == "deep-if":
-            n = rng.pick([10, 100, 1000, 10000])
-            w = rng.pick([".if 1", ".ifdef X", ".ifndef X", ".if 0"])
+            n = rng.pick([10, 100, 1000, 10000, 30000])
+            w = rng.pick([".if 1", ".ifdef X", ".ifndef X", ".if 0", ".if 0\n.else", ".ifdef X\n.else", ".if 1\n.db 2\n.else", ".ifndef X\n.db 3\n.else"])
             add_line("\n".join([w] * n) + "\n.db 1\n" + "\n".join([".endif"] * (n if rng.chance(2, 3) else n - 1)))
         elif kind == "deep-paren":
             n = rng.pick([10, 100, 1000, 10000])
